@@ -76,3 +76,7 @@ package expiration
 //@   invariant -1 <= rangeindex && rangeindex < len(expired.data) && pql_wf(pq) && wlocked(pq.mtx) && expired != nil
 //@   invariant forall k time.Time :: {pq.buckets[k]} k in pq.buckets ==> old(k in pq.buckets) && pq.buckets[k] == old(pq.buckets[k])
 //@   invariant forall k time.Time :: {old(pq.buckets[k])} old(k in pq.buckets) && !tless(k, now) ==> k in pq.buckets
+
+// ---- lock discipline (C20) ---------------------------------------------------------------------
+//@ guarded bucket.data by mtx
+//@ guarded pqList.pq, buckets by mtx
